@@ -157,6 +157,10 @@ func (c *Ctx) uniq(hint string) string {
 	if h == "" {
 		h = "v"
 	}
+	switch h {
+	case "elem", "kind", "birth", "elemD", "elemI", "isElemOf", "now0", "select", "store", "and", "or", "not", "ite", "true", "false", "let", "forall", "exists":
+		h += "_" // reserved by the prelude / SMT-LIB
+	}
 	c.names[h]++
 	n := h
 	if c.names[h] > 1 {
